@@ -59,6 +59,17 @@ def run(ctx):
                     continue
                 recv = eb.at(fbb).op(ft["args"][0])
                 clo = eb.op(ft["args"][1])
+                # self.0.iter_mut().map(|e| &mut <projection of e>).for_each(..): the closure's
+                # parameter is that projection of the element
+                proj = None
+                if recv[0] == "call" and recv[1].endswith("Iterator::map") and len(recv[2]) == 2:
+                    inner, mclo = recv[2]
+                    while inner[0] == "call" and len(inner[2]) == 1 and inner[1].rsplit("::", 1)[-1] in ("iter_mut", "into_iter", "deref_mut"):
+                        inner = inner[2][0]
+                    mcb = p.bodies.get(mclo[1][len("closure:"):]) if mclo[0] == "agg" and mclo[1].startswith("closure:") else None
+                    if show(inner) == "self.0" and mcb is not None and not mcb.natural_loops():
+                        proj = ExprBuilder(mcb).local(0)
+                        recv = inner
                 if show(recv) != "self.0" or not (clo[0] == "agg" and clo[1].startswith("closure:")):
                     continue
                 cb = p.bodies.get(clo[1][len("closure:"):])
@@ -68,7 +79,15 @@ def run(ctx):
                 pg = paths.guards(b, fbb, eb)
                 for bb, i, st, tgt, root, chain, val in stores(cb, ceb):
                     if root[0] == "arg" and root[1] == 2:
-                        sts.append((bb, i, st, tgt, root, chain, resolve_upvars(p, cb, val), pg + paths.guards(cb, bb, ceb),
+                        if proj is not None:
+                            # (substitute the closure's own parameter first: resolving captures
+                            # brings in the parent's parameters, which are numbered from 1 as well)
+                            from ..loops import rewrite
+                            sub = lambda n: proj if (n[0] == "arg" and n[1] == 2) else None
+                            tgt, val = rewrite(tgt, sub), rewrite(val, sub)
+                            root, chain = root_of(tgt)
+                        val2 = resolve_upvars(p, cb, val)
+                        sts.append((bb, i, st, tgt, root, chain, val2, pg + paths.guards(cb, bb, ceb),
                                     "for_each over self.0.iter_mut() (every element)"))
         ctx.anchor("C15-R2", "stores in apply_additional_half_tone", len(sts), 1, b.loc())
         for bb, i, st, tgt, root, chain, val, gs, trav in sts:
@@ -169,6 +188,35 @@ def run(ctx):
         eb = ExprBuilder(bd)
         recv = eb.at(bb).op(t["args"][0])
         harg = eb.op(t["args"][1])
+        # ... and nothing else: in Engine::generator and its closures the half tone is read for that
+        # argument only - no other store or call takes a value computed from it
+        gen_ = p.body("engine::Engine::generator")
+        others = []
+        for bd2 in ([gen_] + list(p.nested(gen_.path))) if gen_ is not None else []:
+            eb2 = ExprBuilder(bd2)
+            mentions = lambda e: any(x[0] == "field" and x[2] == "additional_half_tone" for x in walk(e)) or any(x[0] == "upvar" and "additional_half_tone" in str(x[1]) for x in walk(e))
+            for sbb, si, sst, stgt, sroot, schain, sval in stores(bd2, eb2):
+                if mentions(sval):
+                    others.append(("store %s" % show(stgt)[:50], cm.loc_of(sst["span"])))
+            for cbb2, ct2 in bd2.calls():
+                if ct2 is t:
+                    continue
+                cn2 = cm.callee_name(ct2["callee"]) if ct2["callee"]["k"] == "fndef" else ""
+                for a2 in ct2["args"]:
+                    try:
+                        ae = eb2.at(cbb2).op(a2)
+                    except Exception:
+                        continue
+                    # the closure that holds the call captures `self` (or the value) - that is the read itself
+                    if ae[0] == "agg" and ae[1].startswith("closure:"):
+                        continue
+                    if mentions(ae) and not (cn2 == AHT):
+                        others.append(("argument of %s" % cn2.split("::")[-1], cm.loc_of(ct2["span"])))
+        if others:
+            for what, loc_ in others[:3]:
+                ctx.fail("C15-R4", "engine::Engine::generator", "other use of the half tone", "the additional half tone also feeds %s: it must only shift the log-F0 means (through apply_additional_half_tone)" % what, loc_)
+        else:
+            ctx.ok("C15-R4", "Engine::generator and its closures use the half tone for that one argument only", cm.loc_of(t["span"]))
         # for every h: the call is not skipped for some values of h (only `h != 0`, for which the
         # shift is the identity anyway, may guard it)
         condg = []
